@@ -228,3 +228,89 @@ theorem same_ds_of_ext {α : Type} (f : St → α × St) (hf : ∀ st l, f (st.e
   exact ⟨rfl, rfl⟩
 
 end Tough.Client
+
+namespace Tough.Client
+open Tough.Sig
+variable {cfg : Config} {srv : Server}
+
+theorem rootLoop_ext (v0 fuel : Nat) (r : Root) (st : St) (l : List Ev) :
+    rootLoop cfg srv v0 fuel r (st.ext l) = ((rootLoop cfg srv v0 fuel r st).1, (rootLoop cfg srv v0 fuel r st).2.ext l) := by
+  induction fuel generalizing r st with
+  | zero => rfl
+  | succ n ih =>
+    simp only [rootLoop]
+    split
+    · rfl
+    · split
+      · rfl
+      · rfl
+      · rename_i new _
+        exact ih new (st.req (.rootV (r.version + 1)) cfg.limits.maxRootSize)
+
+theorem loadRoot_ext (shipped : Option Root) (st : St) (l : List Ev) :
+    loadRoot cfg srv shipped (st.ext l) = ((loadRoot cfg srv shipped st).1, (loadRoot cfg srv shipped st).2.ext l) := by
+  unfold loadRoot
+  split
+  · rfl
+  · rename_i r0
+    split
+    · rfl
+    · simp only [ext_ds]
+      rw [rootLoop_ext]
+      generalize rootLoop cfg srv r0.version (cfg.limits.maxRootUpdates + 1) r0 st = o1
+      obtain ⟨r1, s1⟩ := o1
+      cases r1 with
+      | error e => rfl
+      | ok root =>
+        simp only
+        rw [expiryGate_ext]
+        generalize expiryGate cfg .root root.expires s1 = o2
+        obtain ⟨r2, s2⟩ := o2
+        cases r2 with
+        | error e => rfl
+        | ok u =>
+          simp only
+          split
+          · rename_i h; simp only [h, ↓reduceIte]; rfl
+          · rename_i h; simp only [h, ↓reduceIte]; rfl
+
+theorem cycle_ext (shipped : Option Root) (st : St) (l : List Ev) :
+    cycle cfg srv shipped (st.ext l) = ((cycle cfg srv shipped st).1, (cycle cfg srv shipped st).2.ext l) := by
+  unfold cycle
+  rw [loadRoot_ext]
+  generalize loadRoot cfg srv shipped st = o0
+  obtain ⟨r0, s0⟩ := o0
+  cases r0 with
+  | error e => rfl
+  | ok root =>
+    simp only
+    rw [loadTimestamp_ext]
+    generalize loadTimestamp cfg srv root s0 = o1
+    obtain ⟨r1, s1⟩ := o1
+    cases r1 with
+    | error e => rfl
+    | ok ts =>
+      simp only
+      rw [loadSnapshot_ext]
+      generalize loadSnapshot cfg srv root ts s1 = o2
+      obtain ⟨r2, s2⟩ := o2
+      cases r2 with
+      | error e => rfl
+      | ok sn =>
+        simp only
+        rw [loadTargets_ext]
+        generalize loadTargets cfg srv root sn s2 = o3
+        obtain ⟨r3, s3⟩ := o3
+        cases r3 with
+        | error e => rfl
+        | ok t => rfl
+
+/-- the log only grows: what a step logs is put in front of what was there -/
+theorem log_grows {α : Type} (f : St → α × St) (hf : ∀ st l, f (st.ext l) = ((f st).1, (f st).2.ext l)) (st : St) :
+    ∃ new, (f st).2.log = new ++ st.log := by
+  have h := hf ⟨st.ds, []⟩ st.log
+  have e : (⟨st.ds, []⟩ : St).ext st.log = st := by cases st; rfl
+  rw [e] at h
+  exact ⟨(f ⟨st.ds, []⟩).2.log, by rw [h]; rfl⟩
+
+end Tough.Client
